@@ -151,7 +151,7 @@ def total_v(vs):
 WORST = {"dev": Fraction(0)}
 
 
-def close(a, b, skip=()):
+def close(a, b, skip=(), scale=None):
     """None if equal within TOL relative to the sum of magnitudes, else a description"""
     if a.texts != b.texts:
         return "text values differ: %s vs %s" % (dict(a.texts), dict(b.texts))
@@ -159,7 +159,7 @@ def close(a, b, skip=()):
         if key in skip:
             continue
         x, y = a.b.get(key, (0, 0)), b.b.get(key, (0, 0))
-        sc = max(a.scale.get(key, 0), b.scale.get(key, 0))
+        sc = max(a.scale.get(key, 0), b.scale.get(key, 0), (scale or {}).get(key, 0))
         for i in (0, 1):
             d = abs(x[i] - y[i])
             if d != 0:
@@ -169,37 +169,66 @@ def close(a, b, skip=()):
     return None
 
 
-def same_qty(a, b):
-    """structural equality of two quantities, numbers within TOL"""
+def same_qty(a, b, mag=0):
+    """structural equality of two quantities, numbers within TOL relative to their own size or to [mag],
+    the sum of the magnitudes that went into them (f64 sums with cancellation, e.g. 1e-6 h + 1 day - 1 day,
+    are exact only relative to what was added, not to what is left)"""
     (va, ua), (vb, ub) = a, b
     if ua != ub or va[0] != vb[0]:
         return False
     if va[0] == "t":
         return va[1] == vb[1]
     for x, y in zip(va[1:], vb[1:]):
-        if x != y and abs(x - y) > TOL * max(abs(x), abs(y)):
+        if x != y and abs(x - y) > TOL * max(abs(x), abs(y), mag):
             return False
     return True
 
 
-def same_opt(a, b):
-    return (a is None and b is None) or (a is not None and b is not None and same_qty(a, b))
+def same_opt(a, b, mag=0):
+    return (a is None and b is None) or (a is not None and b is not None and same_qty(a, b, mag))
 
 
-def same_gq(table, gi, gm, fitted):
-    """model vs implementation; after fit only the per-quantity totals of the known slots are comparable"""
+def input_scale(table, qs):
+    """per bucket, the sum of the magnitudes of the inputs in base units (offsets included)"""
+    sc = {}
+    for v, u in qs:
+        if v[0] == "t":
+            continue
+        m = max(abs(t) for t in v[1:])
+        if u is None:
+            key = ("n",)
+        elif u in table:
+            _, pq, r, d = table[u]
+            key, m = ("k", pq), (m + 2 * abs(d)) * r
+        else:
+            key = ("u", u)
+        sc[key] = sc.get(key, 0) + m
+    return sc
+
+
+def same_gq(table, gi, gm, fitted, scale=None):
+    """model vs implementation; after fit only the per-quantity totals of the known slots are comparable.
+    [scale]: input_scale of what was added (None: numbers are compared relative to their own size)"""
+    scale = scale or {}
+
+    def mag(key, q):
+        m = scale.get(key, 0)
+        if key[0] == "k" and q is not None and q[1] in table:
+            return m / table[q[1]][2]
+        return m
     if len(gi["u"]) != len(gm["u"]) or len(gi["o"]) != len(gm["o"]):
         return False
-    if not all(same_qty(x, y) for x, y in zip(gi["u"], gm["u"])):
+    if not all(same_qty(x, y, mag(("u", x[1]), x)) for x, y in zip(gi["u"], gm["u"])):
         return False
     if not all(same_qty(x, y) for x, y in zip(gi["o"], gm["o"])):
         return False
-    if not same_opt(gi["n"], gm["n"]):
+    if not same_opt(gi["n"], gm["n"], mag(("n",), None)):
         return False
     if fitted:
-        return close(total(table, [x for x in gi["k"] if x]), total(table, [x for x in gm["k"] if x])) is None and \
+        return close(total(table, [x for x in gi["k"] if x]), total(table, [x for x in gm["k"] if x]),
+                     scale=scale) is None and \
             [x is None for x in gi["k"]] == [x is None for x in gm["k"]]
-    return all(same_opt(x, y) for x, y in zip(gi["k"], gm["k"]))
+    return all(same_opt(x, y, mag(("k", p), x)) for p, (x, y) in enumerate(zip(gi["k"], gm["k"])))
 
 
 # ----------------------------------------------------------------------------- generators
@@ -484,6 +513,19 @@ def monitor_r(table, line, cats, conf_ok):
     gparts, wparts = s["G"].split("!"), s["W"].split("!")
     want_list = {}
     for (ings, cws), gt, wt in zip(recipes, gparts, wparts):
+        # hypothesis `consistent` of C10_definition_quantities / C10_list (referential consistency, C06),
+        # restated here and evaluated on what the implementation produced
+        for items in (ings, cws):
+            for i, x in enumerate(items):
+                rel = x["rel"]
+                if rel[0] == "d":
+                    refs = [int(t) for t in rel.split(".")[1:]]
+                    if refs != [j for j, y in enumerate(items) if y["rel"] == "r%di" % i]:
+                        return "hypothesis `consistent` fails: referenced_from of %d is %s" % (i, refs), None
+                elif rel[-1] == "i":
+                    t = int(rel[1:-1])
+                    if not (t < i and items[t]["rel"][0] == "d"):
+                        return "hypothesis `consistent` fails: %d refers to %d which is not an earlier definition" % (i, t), None
         per_def = {}
         for i, x in enumerate(ings):
             if x["rel"][0] == "d":
@@ -709,7 +751,8 @@ def _run(rep, tier, rng, audit, runner, exe, table, env, open_classes):
             monitor_hits.append((case, m, {"case": case, "impl": li, "violated": m}))
             continue
         fitted = "F" in ops
-        if lm.startswith("A panic") or not same_gq(table, pgq(li.split(" ")[1]), pgq(lm.split(" ")[1]), fitted):
+        if lm.startswith("A panic") or not same_gq(table, pgq(li.split(" ")[1]), pgq(lm.split(" ")[1]), fitted,
+                                                   input_scale(table, qs)):
             disagreements.append((case, {"case": case, "impl": li, "model": lm}))
         if len(qs) >= 2:
             distinct.add(li)
@@ -780,6 +823,8 @@ def _run(rep, tier, rng, audit, runner, exe, table, env, open_classes):
             continue
         stats["R_" + stream] += 1
         m, cls = monitor_r(table, li, cats, conf_ok)
+        if li.startswith("R ok") and not (m or "").startswith("hypothesis"):
+            stats["recipes_hypothesis_consistent_checked"] += len(sec(li)["D"].split("!"))
         if m:
             if stream == "witness":
                 witness_fails = True
